@@ -127,7 +127,7 @@ func runPair(c *ctx, id string, cfg runCfg, oldS, newS []Stmt, style sqlStyle) {
 func routeNames(dialect string) []string {
 	routes := []string{"canonical", "grouped", "per-statement", "random-spelling", "own-dump"}
 	if dialect == "mysql" {
-		routes = append(routes, "explicit-using-btree", "inline-keys", "table-level-pk", "inline-keys-using-btree")
+		routes = append(routes, "explicit-using-btree", "inline-keys", "table-level-pk", "inline-keys-using-btree", "pk-in-create-table")
 	}
 	if dialect == "postgres" {
 		routes = append(routes, "alter-column-type")
@@ -228,6 +228,26 @@ func runRoutesFixed(c *ctx, id string, cfg runCfg, s *gSchema, fix1, fix2 string
 		case "table-level-pk":
 			ss, _ := tableLevelPk(s.scriptGrouped())
 			e = load(z, cfg, plain, ss)
+		case "pk-in-create-table": // a key the schema declares with ALTER TABLE … ADD PRIMARY KEY, written as a table
+			// constraint `PRIMARY KEY (…)` inside CREATE TABLE instead (seeded change C03-p)
+			ss := s.scriptGrouped()
+			var out []Stmt
+			for _, st := range ss {
+				if st.Kind == "addPk" {
+					folded := false
+					for k := range out {
+						if out[k].Kind == "createTable" && out[k].T == st.T && len(out[k].Pk) == 0 {
+							out[k].Pk = st.Pk
+							folded = true
+						}
+					}
+					if folded {
+						continue
+					}
+				}
+				out = append(out, st)
+			}
+			e = load(z, cfg, plain, out)
 		case "inline-keys-using-btree": // the way mysqldump prints the default index type (seeded change C03-g)
 			e = guard(func() string {
 				if err := z.FromString(plain.scriptInlineKeysUsing(s.scriptGrouped(), " USING BTREE")); err != nil {
@@ -307,6 +327,14 @@ func suitePair(c *ctx) {
 					k++
 				}
 			}
+		}
+		// C03-p: a composite key declared at table level, by ALTER TABLE and inside CREATE TABLE, against the other routes
+		kws := &gSchema{Tables: []*gTable{
+			{Name: "m", Cols: []ColDef{{Name: "a", Typ: "int(11)", Opts: []Opt{{Kind: "notnull"}}}, {Name: "b", Typ: "int(11)", Opts: []Opt{{Kind: "notnull"}}}, {Name: "c", Typ: "text"}},
+				Pk: []string{"a", "b"}, Idx: []gIndex{{Name: "idx_c_b", Cols: []string{"b"}}}},
+			{Name: "u", Cols: []ColDef{{Name: "x", Typ: "int(11)"}}}}}
+		for i, pr := range [][2]string{{"pk-in-create-table", "grouped"}, {"grouped", "pk-in-create-table"}, {"pk-in-create-table", "own-dump"}, {"own-dump", "pk-in-create-table"}, {"per-statement", "pk-in-create-table"}} {
+			runRoutesFixed(c, fmt.Sprintf("wrtpk%d", i), runCfg{dialect: "mysql", lower: i%2 == 0}, kws, pr[0], pr[1])
 		}
 		// postgres, an option-free schema (inside the reader's fragment): written directly and through ALTER COLUMN … TYPE
 		// within the type family (C03-h)
